@@ -5,11 +5,15 @@ use serde_json::Value;
 
 mod c06;
 mod c07;
+mod c09;
+mod c18;
 
 pub fn run(ctx: &Ctx) -> Option<Report> {
     Some(match ctx.prop.as_str() {
         "C06" => c06::run(ctx),
         "C07" => c07::run(ctx),
+        "C09" => c09::run(ctx),
+        "C18" => c18::run(ctx),
         _ => return None,
     })
 }
@@ -19,6 +23,8 @@ pub fn replay(ctx: &Ctx, doc: &Value) -> Option<Report> {
     Some(match ctx.prop.as_str() {
         "C06" => c06::replay(ctx, w),
         "C07" => c07::replay(ctx, w),
+        "C09" => c09::replay(ctx, w),
+        "C18" => c18::replay(ctx, w),
         _ => return None,
     })
 }
